@@ -107,7 +107,7 @@ Proof.
   destruct X as [C1 o1]. cbn [fst] in H1.
   destruct (q_owner q) as [d|p]; [exact H1|].
   destruct (nth_error (c_ops C1) p) as [[k al rid ph]|]; [|exact H1].
-  destruct ph as [rest i' h'| | |]; try exact H1.
+  destruct ph as [rest i' h'| | | |]; try exact H1.
   destruct (Nat.eqb i i' && Nat.eqb h h'); [|exact H1].
   destruct (if q_to q then RTimedOut else res_of oc);
     try solve [pose proof (g2_op_known rest C1 p rid) as Y; destruct (op_known C1 p rid rest); cbn [fst] in *; eapply R_trans; eauto].
@@ -191,9 +191,15 @@ Qed.
 Lemma g2_succ1 C p f : R C (fst (succ1 C p f)).
 Proof.
   unfold succ1. destruct (nth_error (c_ops C) p) as [o|]; [|apply R_refl].
-  destruct (o_kind o =? 1); [|apply R_phase]. destruct (closing (set_phase C p PDone)); [apply R_phase|].
-  pose proof (g2_merge (set_phase C p PDone) (drop 4 f) (o_all o)) as X. destruct (merge (set_phase C p PDone) (drop 4 f) (o_all o)).
-  cbn [fst] in *. eapply R_trans; [apply R_phase | exact X].
+  destruct (o_kind o =? 1).
+  - destruct (closing (set_phase C p PDone)); [apply R_phase|].
+    pose proof (g2_merge (set_phase C p PDone) (drop 4 f) (o_all o)) as X. destruct (merge (set_phase C p PDone) (drop 4 f) (o_all o)).
+    cbn [fst] in *. eapply R_trans; [apply R_phase | exact X].
+  - destruct (is_ltp (o_kind o)); [|apply R_phase]. destruct (closing (set_phase C p PDone)); [apply R_phase|].
+    pose proof (g2_merge (set_phase C p PDone) (drop 4 f) false) as X. destruct (merge (set_phase C p PDone) (drop 4 f) false) as [C2 o2].
+    cbn [fst] in X. assert (R C C2) as X2 by (eapply R_trans; [apply R_phase | exact X]).
+    destruct (missing (drop 4 f)); [|exact X2]. unfold new_timer. cbn [fst].
+    eapply R_trans; [exact X2|]. apply R_frame3; [split; [reflexivity | eexists; reflexivity] | reflexivity | reflexivity | reflexivity | reflexivity].
 Qed.
 
 Lemma g2_ev_bc C i e : R C (fst (ev_bc C i e)).
@@ -208,12 +214,14 @@ Proof.
   set (X := match nth_error (c_ops C) p with
             | Some (mkOp _ _ _ (PBootConn a rest)) => let (C', o') := boot_next (set_boot C a KDead) p rest in (C', OBootCancel a :: o')
             | Some (mkOp _ _ _ (PBootReq a t rest)) => let (C', o') := boot_next C p rest in (C', OCancelTimer t :: OBootLose a :: o')
+            | Some (mkOp _ _ _ (PWait t)) => let (C', o') := op_fail C p RCancelled in (C', OCancelTimer t :: o')
             | _ => (C, []) end).
   assert (R C (fst X)) as H1.
   { unfold X. destruct (nth_error (c_ops C) p) as [[k al rid ph]|]; [|apply R_refl]. destruct ph; try apply R_refl.
     - pose proof (g2_boot_next (set_boot C a KDead) p rest) as Y. destruct (boot_next (set_boot C a KDead) p rest). cbn [fst] in *.
       eapply R_trans; [apply g2_set_boot | exact Y].
-    - pose proof (g2_boot_next C p rest) as Y. destruct (boot_next C p rest). cbn [fst] in *. exact Y. }
+    - pose proof (g2_boot_next C p rest) as Y. destruct (boot_next C p rest). cbn [fst] in *. exact Y.
+    - pose proof (g2_op_fail C p RCancelled) as Y. destruct (op_fail C p RCancelled). cbn [fst] in *. exact Y. }
   destruct X as [C1 o1]. cbn [fst] in H1. pose proof (IH C1 (S p)) as Y. destruct (cancel_boots C1 n (S p)). cbn [fst] in *.
   eapply R_trans; eauto.
 Qed.
@@ -244,7 +252,7 @@ Proof.
   - apply g2_ev_bc.
   - apply g2_ev_bc.
   - apply g2_ev_bc.
-  - destruct (nth_error (c_timers C) t) as [[i h|i|p a]|]; [| | |apply R_refl].
+  - destruct (nth_error (c_timers C) t) as [[i h|i|p a|p]|]; [| | | |apply R_refl].
     + unfold creq_at. destruct (nth_error (c_bcs C) i) as [b|]; [|apply R_refl].
       destruct (nth_error (b_reqs b) h) as [[ow [t'|] to]|]; try apply R_refl.
       destruct (Nat.eqb t t'); [|apply R_refl].
@@ -258,6 +266,12 @@ Proof.
       eapply R_trans; [|apply g2_ev_bc]. apply R_frame3; [apply upd_bc_core; intros; reflexivity | reflexivity | reflexivity | reflexivity | reflexivity].
     + destruct (phase_of C p); try apply R_refl. destruct (Nat.eqb a a0 && Nat.eqb t t0); [|apply R_refl].
       pose proof (g2_boot_next C p rest) as Y. destruct (boot_next C p rest). exact Y.
+    + destruct (phase_of C p); try apply R_refl. destruct (Nat.eqb t t0); [|apply R_refl]. unfold next_id. cbn [fst snd].
+      set (C1 := with_corr C _). set (C2 := restart_op C1 p _).
+      assert (R C C2) as H by (apply R_frame3; [unfold C2, C1; score | reflexivity | reflexivity | reflexivity | reflexivity]).
+      destruct (c_clients C2).
+      * eapply R_trans; [exact H | apply g2_op_known].
+      * eapply R_trans; [exact H | apply g2_op_fail].
   - destruct (nth_error (c_boots C) a) as [[[p rid] [| |]]|]; try apply R_refl.
     destruct (phase_of C p); try apply R_refl. destruct (Nat.eqb a a0); [|apply R_refl].
     unfold new_timer. cbn [fst]. apply R_frame3; [split; [reflexivity | eexists; reflexivity] | reflexivity | reflexivity | reflexivity | reflexivity].
